@@ -39,7 +39,9 @@ class Thread:
     def start(self):
         rt = current()
         rt.point("thread.start", self.name)
-        self._vt = rt.spawn(self.name, self._target or (lambda: None), self._args, self._kwargs, self.daemon)
+        scenario_owned = self.name.startswith(("peer", "driver", "probe"))
+        self._vt = rt.spawn(self.name, self._target or (lambda: None), self._args, self._kwargs, self.daemon,
+                            library=not scenario_owned)
 
     def join(self, timeout=None):
         rt = current()
